@@ -75,3 +75,13 @@ pub use crate::core::{txtpp, Config, Mode, Txtpp, Verbosity};
 pub mod error;
 mod fs;
 pub use crate::fs::TXTPP_FILE;
+
+/// verification hooks: re-exports of internal items for out-of-tree harnesses (no behaviour)
+#[cfg(feature = "verif")]
+pub mod verif {
+    pub use crate::core::{DepManager, Directive, DirectiveType, ReplaceLineEnding, TagState};
+    pub use crate::fs::{
+        verif_get_line_ending_from_buf, verif_path_string_from_base, AbsPath, GetLineEnding,
+        Shell, TxtppPath,
+    };
+}
